@@ -10,8 +10,8 @@ PROP = dict(
     level_note="A clean sanitizer run is not memory safety (red-zone tools miss intra-object and non-adjacent overflows). "
                "allocator_may_return_null=1 so absurd sizes surface as std::bad_alloc. Liveness is restated as bounded progress "
                "(per-case watchdog). Inputs are sampled, not enumerated.",
-    technique="ASan+UBSan fuzzing with structure-aware mutators, one journaled case at a time, crash keys from sanitizer reports",
-    rule="case = one mutated byte string (1-5 mutations of a seed). Non-trivial: deck cases that parse or are refused with an "
+    technique="ASan+UBSan fuzzing with structure-aware mutators (random, keyword-focused, and a systematic boundary sweep: every integer token +-1, every record lengthened), one journaled case at a time, crash keys from sanitizer reports",
+    rule="fuzz stages: case = one mutated byte string (1-5 random mutations of a seed, or in 40 % of the deck cases 1-2 small edits inside one keyword block chosen uniformly over the keyword names). Sweep stage: case = one well-formed deck and up to 400 single-edit variants of it (each integer token +1 / -1, each record with 40 more copies of its last value). Non-trivial: deck cases that parse or are refused with an "
          "exception; every file case. distinct = hash of the mutated bytes",
     stages=[
         dict(id="deck_asan", harness="c20_deck", flavour="asan", cases={Q: 30000, T: 300000}, timeout={Q: 1500, T: 14400},
